@@ -401,7 +401,11 @@ func runObj(w *lib.Writer, in ObjIn, class string) {
 		// C10-2: ObjLen of a userdata without __len returns 0 where Lua's # raises
 		kf = []string{"C10-2"}
 		class = "obj/objlen-ud-nolen"
-		coq = fmt.Sprintf("CObjDev %d %s %s %s", opIdx, toZ(api), toZ(lu), toZ([]string{fmt.Sprintf("ret:n:%x", math.Float64bits(0))}))
+		dev := make([]string, reps) // (the call is made reps times)
+		for i := range dev {
+			dev[i] = fmt.Sprintf("ret:n:%x", math.Float64bits(0))
+		}
+		coq = fmt.Sprintf("CObjDev %d %s %s %s", opIdx, toZ(api), toZ(lu), toZ(dev))
 	}
 	id := w.Add(lib.Case{Input: in, Observed: map[string]any{"api": api, "lua": lu}, Class: class, KF: kf,
 		Nontrivial: hasLog, // a metamethod took part
